@@ -378,9 +378,311 @@ Example sorted_example :
   /\ orderable_keys None [VObj 1 5 2; VObj 2 3 2; VObj 3 3 2] = true.
 Proof. repeat split. Qed.
 
+(* ================= part 5: exactly when sorted raises TypeError ================= *)
+(* --- the model's insertion sort: permutation, and when it meets an unorderable comparison --- *)
+Lemma insert_by_perm lt x : forall l s, insert_by lt x l = Some s -> Permutation s (x :: l).
+Proof.
+  induction l as [|y r IH]; intros s H; cbn [insert_by] in H.
+  - injection H as <-. reflexivity.
+  - destruct (lt (fst y) (fst x)) as [[|]|]; try discriminate.
+    + destruct (insert_by lt x r) as [s'|] eqn:E; try discriminate. cbn in H. injection H as <-.
+      rewrite (IH s' eq_refl). apply perm_swap.
+    + injection H as <-. reflexivity.
+Qed.
+Lemma sort_by_perm lt : forall l s, sort_by lt l = Some s -> Permutation s l.
+Proof.
+  induction l as [|x r IH]; intros s H; cbn [sort_by] in H.
+  - injection H as <-. reflexivity.
+  - destruct (sort_by lt r) as [s'|] eqn:E; try discriminate.
+    rewrite (insert_by_perm _ _ _ _ H). constructor. apply IH. reflexivity.
+Qed.
+
+(* inserting x into the sorted list s compares x with the elements of s from the left, for as
+   long as they go strictly before x; it fails iff it reaches an element unorderable with x *)
+Definition ins_hits (lt : val -> val -> option bool) (x : val * val) (s : list (val * val)) : Prop :=
+  exists s1 y s2, s = s1 ++ y :: s2
+    /\ Forall (fun z => lt (fst z) (fst x) = Some true) s1 /\ lt (fst y) (fst x) = None.
+(* the sort (which inserts the items from the last to the first) fails iff some item x meets an
+   unorderable comparison when it is inserted into the sorted list of the items after it *)
+Definition hits_unorderable (lt : val -> val -> option bool) (l : list (val * val)) : Prop :=
+  exists pre x post s, l = pre ++ x :: post /\ sort_by lt post = Some s /\ ins_hits lt x s.
+
+Lemma insert_by_none_iff lt x : forall s, insert_by lt x s = None <-> ins_hits lt x s.
+Proof.
+  induction s as [|y r IH]; cbn [insert_by].
+  - split; [discriminate|]. intros (s1 & y & s2 & E & _). destruct s1; discriminate.
+  - destruct (lt (fst y) (fst x)) as [[|]|] eqn:L.
+    + split.
+      * intros H. destruct (insert_by lt x r) eqn:E; [discriminate|].
+        destruct (proj1 IH eq_refl) as (s1 & y0 & s2 & -> & F & N).
+        exists (y :: s1), y0, s2. repeat split; auto.
+      * intros (s1 & y0 & s2 & E & F & N). destruct s1 as [|z s1]; cbn in E; injection E as <- ->.
+        { congruence. }
+        inversion F as [|? ? _ F']; subst.
+        assert (Hn : insert_by lt x (s1 ++ y0 :: s2) = None) by (apply IH; exists s1, y0, s2; auto).
+        rewrite Hn. reflexivity.
+    + split; [discriminate|]. intros (s1 & y0 & s2 & E & F & N).
+      destruct s1 as [|z s1]; cbn in E; injection E as <- ->; [congruence|].
+      inversion F as [|? ? Hz _]; subst. congruence.
+    + split; [|reflexivity]. intros _. exists [], y, r. repeat split; auto.
+Qed.
+Lemma sort_by_none_iff lt : forall l, sort_by lt l = None <-> hits_unorderable lt l.
+Proof.
+  induction l as [|x r IH]; cbn [sort_by].
+  - split; [discriminate|]. intros (pre & x & post & s & E & _). destruct pre; discriminate.
+  - destruct (sort_by lt r) as [s'|] eqn:E.
+    + split.
+      * intros H. exists [], x, r, s'. repeat split; auto. apply insert_by_none_iff, H.
+      * intros (pre & x0 & post & s & El & Es & Hh). destruct pre as [|z pre]; cbn in El; injection El as <- ->.
+        { rewrite E in Es. injection Es as <-. apply insert_by_none_iff, Hh. }
+        assert (Hn : @None (list (val * val)) = None) by reflexivity.
+        enough (Some s' = None) by discriminate. apply IH. exists pre, x0, post, s. auto.
+    + split; [|reflexivity]. intros _. destruct (proj1 IH eq_refl) as (pre & x0 & post & s & -> & Es & Hh).
+      exists (x :: pre), x0, post, s. auto.
+Qed.
+
+(* --- orderability of two values is [same_kind], a partial equivalence --- *)
+Lemma same_kind_py_lt_iff a b : same_kind a b = true <-> py_lt a b <> None.
+Proof. destruct a, b; cbn; try destruct (N.eqb _ _); split; congruence. Qed.
+Lemma same_kind_sym a b : same_kind a b = true -> same_kind b a = true.
+Proof. destruct a, b; cbn; try discriminate; auto. rewrite N.eqb_sym. auto. Qed.
+Lemma same_kind_trans a b c : same_kind a b = true -> same_kind b c = true -> same_kind a c = true.
+Proof.
+  destruct a, b; cbn; try discriminate; destruct c; cbn; try discriminate; intros H1 H2; try reflexivity.
+  apply N.eqb_eq in H1, H2. subst. apply N.eqb_refl.
+Qed.
+Lemma py_lt_none_sym a b : py_lt a b = None -> py_lt b a = None.
+Proof.
+  intros H. destruct (py_lt b a) eqn:E; [|reflexivity]. exfalso.
+  assert (K : same_kind b a = true) by (apply same_kind_py_lt_iff; congruence).
+  apply same_kind_sym, same_kind_py_lt_iff in K. congruence.
+Qed.
+Lemma lt_dir_some_iff reverse a b : lt_dir reverse a b <> None <-> same_kind a b = true.
+Proof.
+  unfold lt_dir. destruct reverse; [|symmetry; apply same_kind_py_lt_iff].
+  rewrite <- same_kind_py_lt_iff. split; apply same_kind_sym.
+Qed.
+
+(* if the sort of at least two items succeeds, all key values are of one kind *)
+Definition AllKind (l : list (val * val)) : Prop :=
+  forall p q, In p l -> In q l -> same_kind (fst p) (fst q) = true.
+Lemma sort_by_some_kind reverse : forall l s,
+  sort_by (lt_dir reverse) l = Some s -> 2 <= length l -> AllKind l.
+Proof.
+  induction l as [|x r IH]; intros s H Hlen; [cbn in Hlen; lia|].
+  cbn [sort_by] in H. destruct (sort_by (lt_dir reverse) r) as [s'|] eqn:E; [|discriminate].
+  pose proof (sort_by_perm _ _ _ E) as Hp.
+  destruct s' as [|h t].
+  { apply Permutation_nil in Hp. subst r. cbn in Hlen. lia. }
+  cbn [insert_by] in H. destruct (lt_dir reverse (fst h) (fst x)) as [c|] eqn:L; [|discriminate].
+  assert (Hk : same_kind (fst h) (fst x) = true) by (apply (lt_dir_some_iff reverse); congruence).
+  assert (Hh : In h r) by (eapply Permutation_in; [exact Hp|left; reflexivity]).
+  assert (Hr : AllKind r).
+  { destruct r as [|y [|y' r']].
+    - destruct Hh.
+    - destruct Hh as [<-|[]]. intros p q [<-|[]] [<-|[]].
+      eapply same_kind_trans; [exact Hk|apply same_kind_sym, Hk].
+    - apply (IH _ eq_refl). cbn. lia. }
+  intros p q [<-|Hp'] [<-|Hq'].
+  - apply (same_kind_trans _ (fst h)); [apply same_kind_sym, Hk|exact Hk].
+  - apply (same_kind_trans _ (fst h)); [apply same_kind_sym, Hk|apply Hr; assumption].
+  - apply (same_kind_trans _ (fst h)); [apply Hr; assumption|exact Hk].
+  - apply Hr; assumption.
+Qed.
+
+Lemma in_keyed key xs y : In y xs -> In (keyf key y, y) (keyed key xs).
+Proof. intros H. unfold keyed. apply in_map_iff. eauto. Qed.
+Lemma AllKind_orderable key xs : AllKind (keyed key xs) -> orderable_keys key xs = true.
+Proof.
+  intros H. destruct xs as [|x r]; [reflexivity|]. cbn [orderable_keys]. apply forallb_forall.
+  intros y Hy. apply (H (keyf key x, x) (keyf key y, y)); apply in_keyed; [left; reflexivity|exact Hy].
+Qed.
+Lemma orderable_pairwise key xs a b :
+  orderable_keys key xs = true -> In a xs -> In b xs -> same_kind (keyf key a) (keyf key b) = true.
+Proof.
+  intros H Ha Hb. destruct (orderable_dom key xs H) as [k0 Hd]. unfold Dom in Hd. rewrite Forall_forall in Hd.
+  pose proof (Hd _ (in_keyed key xs a Ha)) as Ka. pose proof (Hd _ (in_keyed key xs b Hb)) as Kb. cbn [fst] in Ka, Kb.
+  eapply same_kind_trans; [apply same_kind_sym, Ka|exact Kb].
+Qed.
+
+Lemma sort_by_perm_items lt key xs s :
+  sort_by lt (keyed key xs) = Some s -> Permutation (map snd s) xs.
+Proof.
+  intros E. rewrite <- (map_snd_keyed key xs) at 1. apply Permutation_map, (sort_by_perm _ _ _ E).
+Qed.
+
+(* the outcome of the model, read off [sorted_run] *)
+Lemma sorted_outcome key reverse xs :
+  fst (a_sorted key reverse (init_world [xs] None))
+  = match sort_by (lt_dir reverse) (keyed key xs) with
+    | Some s => Ok (VList (map snd s)) | None => Exn XTypeError end.
+Proof.
+  destruct (sorted_run key reverse xs) as (w & -> & _). cbn [fst]. unfold py_sorted.
+  destruct (sort_by (lt_dir reverse) (keyed key xs)); reflexivity.
+Qed.
+
+(* --- the theorems --- *)
+(* TypeError iff the insertion sort of the model meets an unorderable comparison: some item,
+   inserted into the sorted list of the items after it, reaches (after elements that go strictly
+   before it) an element whose key value cannot be compared with its own *)
+Theorem sorted_type_error_iff : forall key reverse xs,
+  fst (a_sorted key reverse (init_world [xs] None)) = Exn XTypeError
+  <-> hits_unorderable (lt_dir reverse) (keyed key xs).
+Proof.
+  intros key reverse xs. rewrite sorted_outcome, <- sort_by_none_iff.
+  destruct (sort_by (lt_dir reverse) (keyed key xs)); split; congruence.
+Qed.
+
+(* the same as a decidable condition on the input: at least two items, and the key values are
+   not all ints / all objects of one class *)
+Theorem sorted_type_error_exact : forall key reverse xs,
+  fst (a_sorted key reverse (init_world [xs] None)) = Exn XTypeError
+  <-> (2 <=? length xs) = true /\ orderable_keys key xs = false.
+Proof.
+  intros key reverse xs. rewrite sorted_outcome. split.
+  - intros H. split.
+    + destruct xs as [|x [|y r]]; [discriminate H|discriminate H|reflexivity].
+    + destruct (orderable_keys key xs) eqn:O; [|reflexivity].
+      pose proof (py_sorted_spec key reverse xs O) as P. unfold py_sorted in P.
+      destruct (sort_by (lt_dir reverse) (keyed key xs)); discriminate.
+  - intros [Hlen O]. destruct (sort_by (lt_dir reverse) (keyed key xs)) as [s|] eqn:E; [|reflexivity].
+    exfalso. apply Nat.leb_le in Hlen.
+    assert (K : AllKind (keyed key xs)).
+    { apply (sort_by_some_kind reverse _ s E). unfold keyed. rewrite map_length. exact Hlen. }
+    rewrite (AllKind_orderable key xs K) in O. discriminate.
+Qed.
+
+(* (a) pairwise orderable key values: the outcome is Ok, namely the specification's sort *)
+Theorem sorted_ok_pairwise : forall key reverse xs,
+  (forall a b, In a xs -> In b xs -> py_lt (keyf key a) (keyf key b) <> None) ->
+  fst (a_sorted key reverse (init_world [xs] None)) = spec_sorted key reverse xs.
+Proof.
+  intros key reverse xs H.
+  assert (O : orderable_keys key xs = true).
+  { destruct xs as [|x r]; [reflexivity|]. cbn [orderable_keys]. apply forallb_forall. intros y Hy.
+    apply same_kind_py_lt_iff, H; [left; reflexivity|exact Hy]. }
+  pose proof (sorted_spec key reverse xs O) as S.
+  destruct (a_sorted key reverse (init_world [xs] None)) as [o w]. apply S.
+Qed.
+(* and conversely (b): with at least two items, ANY two items (possibly the same one) whose key
+   values are unorderable make the outcome TypeError *)
+Theorem sorted_type_error_unorderable_pair : forall key reverse xs a b,
+  (2 <=? length xs) = true -> In a xs -> In b xs -> py_lt (keyf key a) (keyf key b) = None ->
+  fst (a_sorted key reverse (init_world [xs] None)) = Exn XTypeError.
+Proof.
+  intros key reverse xs a b Hlen Ha Hb N. apply sorted_type_error_exact. split; [exact Hlen|].
+  destruct (orderable_keys key xs) eqn:O; [|reflexivity]. exfalso.
+  apply (proj1 (same_kind_py_lt_iff _ _) (orderable_pairwise key xs a b O Ha Hb)), N.
+Qed.
+(* so for at least two items: Ok iff pairwise orderable *)
+Corollary sorted_ok_iff_pairwise : forall key reverse xs,
+  (2 <=? length xs) = true ->
+  ((exists l, fst (a_sorted key reverse (init_world [xs] None)) = Ok (VList l))
+   <-> (forall a b, In a xs -> In b xs -> py_lt (keyf key a) (keyf key b) <> None)).
+Proof.
+  intros key reverse xs Hlen. split.
+  - intros [l E] a b Ha Hb N.
+    rewrite (sorted_type_error_unorderable_pair key reverse xs a b Hlen Ha Hb N) in E. discriminate.
+  - intros H. rewrite (sorted_ok_pairwise key reverse xs H). eexists. reflexivity.
+Qed.
+
+(* (a') the sharp sufficient condition: only the comparisons the insertion sort can make are
+   needed: a LATER item's key against an EARLIER item's key, in the model's direction
+   (reverse=False: key(later) < key(earlier); reverse=True: key(earlier) < key(later)) *)
+Lemma insert_by_some lt x : forall l,
+  Forall (fun y => lt (fst y) (fst x) <> None) l -> exists s, insert_by lt x l = Some s.
+Proof.
+  induction l as [|y r IH]; intros F; [eexists; reflexivity|].
+  inversion F as [|? ? Hy Hr]; subst. cbn [insert_by].
+  destruct (lt (fst y) (fst x)) as [[|]|]; [|eexists; reflexivity|congruence].
+  destruct (IH Hr) as [s ->]. eexists; reflexivity.
+Qed.
+Lemma sort_by_some lt : forall l,
+  ForallOrdPairs (fun p q => lt (fst q) (fst p) <> None) l -> exists s, sort_by lt l = Some s.
+Proof.
+  induction l as [|x r IH]; intros F; [eexists; reflexivity|].
+  inversion F as [|? ? Hx Hr]; subst. cbn [sort_by]. destruct (IH Hr) as [s E]. rewrite E.
+  apply insert_by_some. eapply Permutation_Forall; [symmetry; apply (sort_by_perm _ _ _ E)|exact Hx].
+Qed.
+Lemma FOP_keyed key (R : val -> val -> Prop) (R' : val * val -> val * val -> Prop) :
+  (forall x y, R x y -> R' (keyf key x, x) (keyf key y, y)) ->
+  forall xs, ForallOrdPairs R xs -> ForallOrdPairs R' (keyed key xs).
+Proof.
+  intros HR xs F. induction F as [|x r Hx _ IH]; cbn; constructor; [|exact IH].
+  apply Forall_forall. intros p Hp. apply in_map_iff in Hp. destruct Hp as (y & <- & Hy).
+  apply HR. exact (proj1 (Forall_forall _ _) Hx y Hy).
+Qed.
+Theorem sorted_ok_needed_comparisons : forall key reverse xs,
+  ForallOrdPairs (fun x y => lt_dir reverse (keyf key y) (keyf key x) <> None) xs ->
+  exists l, fst (a_sorted key reverse (init_world [xs] None)) = Ok (VList l) /\ Permutation l xs.
+Proof.
+  intros key reverse xs F. rewrite sorted_outcome.
+  destruct (sort_by_some (lt_dir reverse) (keyed key xs)) as [s E].
+  { revert F. apply FOP_keyed. intros x y H. exact H. }
+  rewrite E. eexists. split; [reflexivity|]. apply (sort_by_perm_items _ _ _ _ E).
+Qed.
+
+(* (c) two items: the model makes exactly one comparison, key(y) against key(x) in its direction *)
+Theorem sorted_two_type_error : forall key reverse x y,
+  lt_dir reverse (keyf key y) (keyf key x) = None ->
+  fst (a_sorted key reverse (init_world [[x; y]] None)) = Exn XTypeError.
+Proof.
+  intros key reverse x y N. rewrite sorted_outcome. unfold keyed. cbn [map sort_by insert_by fst].
+  rewrite N. reflexivity.
+Qed.
+Theorem sorted_two_ok : forall key reverse x y c,
+  lt_dir reverse (keyf key y) (keyf key x) = Some c ->
+  fst (a_sorted key reverse (init_world [[x; y]] None)) = Ok (VList (if c then [y; x] else [x; y])).
+Proof.
+  intros key reverse x y c N. rewrite sorted_outcome. unfold keyed. cbn [map sort_by insert_by fst].
+  rewrite N. destruct c; reflexivity.
+Qed.
+(* unorderability does not depend on the direction *)
+Corollary sorted_two_type_error_sym : forall key reverse x y,
+  py_lt (keyf key x) (keyf key y) = None ->
+  fst (a_sorted key reverse (init_world [[x; y]] None)) = Exn XTypeError.
+Proof.
+  intros key reverse x y N. apply sorted_two_type_error. unfold lt_dir.
+  destruct reverse; [exact N|apply py_lt_none_sym, N].
+Qed.
+
+(* the outcome is always a permutation of the input or TypeError, never anything else; the
+   trace (all items read, all key calls made, before anything is compared) and the release of the
+   source do not depend on the outcome *)
+Theorem sorted_outcome_cases : forall key reverse xs,
+  let '(o, w) := a_sorted key reverse (init_world [xs] None) in
+  ((exists l, o = Ok (VList l) /\ Permutation l xs) \/ o = Exn XTypeError)
+  /\ no_closes (rev (log w)) = spec_sorted_trace key xs
+  /\ all_released w = true.
+Proof.
+  intros key reverse xs. pose proof (sorted_outcome key reverse xs) as O.
+  destruct (sorted_run key reverse xs) as (w & E & Ht & Hr). rewrite E in O |- *. cbn [fst] in O.
+  split; [|auto]. rewrite O.
+  destruct (sort_by (lt_dir reverse) (keyed key xs)) as [s|] eqn:Es; [left|right; reflexivity].
+  eexists. split; [reflexivity|]. apply (sort_by_perm_items _ _ _ _ Es).
+Qed.
+
+Example sorted_type_error_example :
+  (* mixed ints and None: TypeError; a single None: fine; objects of two classes: TypeError *)
+  fst (a_sorted None false (init_world [[VInt 2; VNone; VInt 1]] None)) = Exn XTypeError
+  /\ fst (a_sorted None true (init_world [[VNone]] None)) = Ok (VList [VNone])
+  /\ fst (a_sorted None false (init_world [[VObj 1 5 2; VObj 2 3 7]] None)) = Exn XTypeError
+  /\ (2 <=? length [VInt 2; VNone; VInt 1]) = true /\ orderable_keys None [VInt 2; VNone; VInt 1] = false.
+Proof. repeat split. Qed.
+
 Print Assumptions sorted_spec.
 Print Assumptions sorted_trace_any.
 Print Assumptions spec_sorted_perm.
 Print Assumptions spec_sorted_sorted.
 Print Assumptions spec_sorted_stable.
 Print Assumptions spec_sorted_stable_eq.
+Print Assumptions sorted_type_error_iff.
+Print Assumptions sorted_type_error_exact.
+Print Assumptions sorted_ok_pairwise.
+Print Assumptions sorted_type_error_unorderable_pair.
+Print Assumptions sorted_ok_iff_pairwise.
+Print Assumptions sorted_ok_needed_comparisons.
+Print Assumptions sorted_two_type_error.
+Print Assumptions sorted_two_ok.
+Print Assumptions sorted_two_type_error_sym.
+Print Assumptions sorted_outcome_cases.
